@@ -6,6 +6,7 @@ package verifapi
 
 import (
 	"encoding/json"
+	"io"
 	"fmt"
 	"math/big"
 	"os"
@@ -326,3 +327,65 @@ func Unguard()                               {}
 func LocksHeld() int                         { return 0 }
 
 func URLParts(uri, scheme, user string, hasUser bool, hostport, rest string) {}
+
+
+// replayStream is the native loop-back stream: reads are cut where the
+// symbolic run cut them (abstract positions: 2*i = start of message i, 2*i+1 = inside it).
+type replayStream struct {
+	buf  []byte
+	ends []int
+	pos  int
+	cuts int
+}
+
+func NewStream() io.ReadWriteCloser { return &replayStream{} }
+
+func (s *replayStream) Write(p []byte) (int, error) {
+	s.buf = append(s.buf, p...)
+	s.ends = append(s.ends, len(s.buf))
+	return len(p), nil
+}
+func (s *replayStream) Close() error { return nil }
+func (s *replayStream) Read(p []byte) (int, error) {
+	if s.pos >= len(s.buf) {
+		return 0, io.EOF
+	}
+	i := 0
+	for i < len(s.ends) && s.ends[i] <= s.pos {
+		i++
+	}
+	start := 0
+	if i > 0 {
+		start = s.ends[i-1]
+	}
+	abs := 2 * i
+	if s.pos > start {
+		abs++
+	}
+	n := 2*len(s.ends) - abs
+	k := 0
+	if n > 1 {
+		k = int(bigOf(fmt.Sprintf("@choose:chunk#%d", s.cuts)).Int64())
+		if k < 0 || k >= n {
+			k = n - 1
+		}
+	}
+	s.cuts++
+	q := abs + 1 + k
+	target := 0
+	if q%2 == 0 {
+		target = s.ends[q/2-1]
+	} else {
+		st := 0
+		if q/2 > 0 {
+			st = s.ends[q/2-1]
+		}
+		target = st + (s.ends[q/2]-st)/2
+		if target <= s.pos {
+			target = s.pos + 1
+		}
+	}
+	c := copy(p, s.buf[s.pos:target])
+	s.pos += c
+	return c, nil
+}
